@@ -123,55 +123,64 @@ Fixpoint keys_distinct (t : table) : bool :=
 
 Inductive robs := RNoCb | RPoints (t : table) | RCrash | RReject.
 
-(* one report of a collector: window = the measurements it has to account for (since its previous collection for a delta
-   collector, since the start for a cumulative one); distinct = number of distinct sets ever recorded on the storage, capped *)
-Definition report_clauses (limit : nat) (f : afilter) (cumulative nan : bool) (ndistinct : nat) (window : list meas)
+(* the five checks on one report.  window = the measurements the collector has to account for (since its previous collection
+   for a delta collector, since the start for a cumulative one) *)
+Definition count_ok (limit : nat) (t : table) : bool := (length t <=? limit)%nat.
+Definition total_ok (window : list meas) (t : table) : bool := table_total t =? sum_vals window.
+Definition known_ok (f : afilter) (window : list meas) (t : table) : bool :=
+  forallb (fun e => is_overflow_set (fst e) || existsb (fun m => denotes f (fst m) (fst e)) window) t.
+(* nothing folded: every measurement has a series, and every series holds exactly the sum of the measurements it denotes *)
+Definition exact_ok (f : afilter) (window : list meas) (t : table) : bool :=
+  forallb (fun m => existsb (fun e => denotes f (fst m) (fst e)) t) window &&
+  forallb (fun e => snd e =? sum_denoted f (fst e) window) t.
+
+(* strict = false leaves out the two checks that look inside the individual series (known_ok, exact_ok) *)
+Definition report_clauses (strict : bool) (limit : nat) (f : afilter) (cumulative nan : bool) (ndistinct : nat) (window : list meas)
                           (o : robs) : list tok :=
   match o with
   | RReject => fail "harness:walk_rejected"
   | RCrash => fail (if nan then "collect_completes:nan_value" else "collect_completes:crash")
   | RNoCb => check (sum_vals window =? 0) (if cumulative then "overflow_conserves_total:cumulative" else "overflow_conserves_total:delta") ++
-             check (negb (ndistinct <? limit)%nat || match window with [] => true | _ => false end) "same_series_iff_equal_maps:missing_series"
+             check (negb strict || negb (ndistinct <? limit)%nat || match window with [] => true | _ => false end)
+                   "same_series_iff_equal_maps:missing_series"
   | RPoints t =>
-      check (length t <=? limit)%nat "series_le_limit:count" ++
-      check (table_total t =? sum_vals window)
-            (if cumulative then "overflow_conserves_total:cumulative" else "overflow_conserves_total:delta") ++
+      check (count_ok limit t) "series_le_limit:count" ++
+      check (total_ok window t) (if cumulative then "overflow_conserves_total:cumulative" else "overflow_conserves_total:delta") ++
       check (keys_distinct t) (if nan then "same_series_iff_equal_maps:nan_value" else "same_series_iff_equal_maps:duplicate_series") ++
-      check (forallb (fun e => is_overflow_set (fst e) || existsb (fun m => denotes f (fst m) (fst e)) window) t)
-            "filter_by_full_key:unknown_series" ++
-      (* fewer distinct sets than the limit: nothing may have been folded - every measurement has a series, and every series
-         holds exactly the sum of the measurements whose attribute set it denotes *)
-      check (negb (ndistinct <? limit)%nat ||
-             (forallb (fun m => existsb (fun e => denotes f (fst m) (fst e)) t) window &&
-              forallb (fun e => snd e =? sum_denoted f (fst e) window) t))
+      check (negb strict || known_ok f window t) "filter_by_full_key:unknown_series" ++
+      (* fewer distinct sets than the limit: nothing may have been folded *)
+      check (negb strict || negb (ndistinct <? limit)%nat || exact_ok f window t)
             (if nan then "same_series_iff_equal_maps:nan_value" else "same_series_iff_equal_maps:series_value")
   end.
 
-(* walk the history: hist = accepted measurements so far, marks = per collector the length of hist at its previous collection *)
-Fixpoint history_clauses (limit : nat) (mono : bool) (f : afilter) (temps : list bool) (nan : bool)
+(* walk the history: hist = accepted measurements so far, marks = per collector the length of hist at its previous collection,
+   reps = representatives of the distinct sets recorded so far (at most limit of them) *)
+Fixpoint history_clauses (strict : bool) (limit : nat) (mono : bool) (f : afilter) (temps : list bool) (nan : bool)
                          (ops : list op) (obs : list robs)
                          (hist : list meas) (reps : list (list (bytes * ival))) (marks : list nat) : list tok :=
   match ops with
   | [] => match obs with [] => [] | _ => fail "harness:extra_reports" end
-  | ORec kvs v :: r => history_clauses limit mono f temps nan r obs (hist ++ [(kvs, counts mono v)]) (add_rep f limit reps kvs) marks
-  | ORec0 v :: r => history_clauses limit mono f temps nan r obs (hist ++ [([], counts mono v)]) (add_rep f limit reps []) marks
+  | ORec kvs v :: r =>
+      history_clauses strict limit mono f temps nan r obs (hist ++ [(kvs, counts mono v)]) (add_rep f limit reps kvs) marks
+  | ORec0 v :: r =>
+      history_clauses strict limit mono f temps nan r obs (hist ++ [([], counts mono v)]) (add_rep f limit reps []) marks
   | OCollect i :: r =>
       match obs with
       | [] => fail "harness:missing_report"
       | o :: obs' =>
           let cumulative := nth i temps false in
           let window := if cumulative then hist else skipn (nth i marks O) hist in
-          report_clauses limit f cumulative nan (length reps) window o ++
+          report_clauses strict limit f cumulative nan (length reps) window o ++
           match o with
           | RCrash | RReject => []       (* the run ends here *)
-          | _ => history_clauses limit mono f temps nan r obs' hist reps (set_nth i (length hist) marks)
+          | _ => history_clauses strict limit mono f temps nan r obs' hist reps (set_nth i (length hist) marks)
           end
       end
   end.
 
 Definition op_nan (o : op) : bool := match o with ORec kvs _ => kvs_nan kvs | _ => false end.
-Definition storage_clauses (c : cfg) (ops : list op) (obs : list robs) : list tok :=
-  history_clauses (c_limit c) (c_mono c) (c_filter c) (c_temps c) (existsb op_nan ops) ops obs [] [] (map (fun _ => O) (c_temps c)).
+Definition storage_clauses (strict : bool) (c : cfg) (ops : list op) (obs : list robs) : list tok :=
+  history_clauses strict (c_limit c) (c_mono c) (c_filter c) (c_temps c) (existsb op_nan ops) ops obs [] [] (map (fun _ => O) (c_temps c)).
 
 (* ------------------------------------------------------------------ clauses on a directly driven AttributesHashMap *)
 Definition hop_nan (o : hop) : bool :=
